@@ -752,9 +752,25 @@ def exhaustive_cases():
     yield {"t": "ndarray", "items": [], "dtype": "float64", "shape": [0]}
 
 
-def malformed_cases(rng, n):
-    """values outside the property's domain that the model does not cover: only 'must not hang / must be reported'"""
-    return []
+def malformed_stream():
+    """Values OUTSIDE the property's domain (not modelled, no oracle): the implementation only has to come back.
+    -> (kind, python object)"""
+    import decimal
+    import fractions
+
+    np = _np()
+    yield "bytes", b"ab"
+    yield "set", {1, 2**60}
+    yield "range", range(3)
+    yield "generator", (i for i in (1, 2**60))
+    yield "complex", complex(1, 2)
+    yield "decimal", decimal.Decimal("1e400")
+    yield "fraction", fractions.Fraction(2**60, 1)
+    yield "longdouble", np.longdouble(2) ** 70
+    yield "datetime64", np.datetime64("2020-01-01")
+    yield "int-keys", {1: 2**60, (1, 2): [float("inf")]}
+    yield "object-array", np.array([1, "a", None], dtype=object)
+    yield "structured-0d", np.array((1, 2.0), dtype=[("a", "i8"), ("b", "f8")])
 
 
 def _cases(ctx):
@@ -783,7 +799,9 @@ def run(ctx, model=True):
         rule="cases = corpus + every scalar type x boundary values (bare, in list/tuple/dict, 0-d, 1-d, 2-d arrays) + random "
         "nested dict/list/tuple/ndarray values over boundary-biased leaves; observation = type tag + exact value "
         "(integer string / fraction / inf / nan) of every output leaf and the container shape; non-trivial = at least one "
-        "leaf truncated (JSON-level output differs from input) or an exception"
+        "leaf truncated (JSON-level output differs from input) or an exception; plus a malformed stream (bytes, set, generator, "
+        "complex, Decimal, Fraction, longdouble, datetime64, non-string keys, object / structured arrays) run through the "
+        "implementation only (outcome recorded in the distribution, no oracle)"
     )
     cases, obss = [], []
     for case in _cases(ctx):
@@ -797,6 +815,16 @@ def run(ctx, model=True):
         res.count("root:" + case["t"])
         for sig, what in oracle(case, obs):
             res.violations.append(C.Violation(sig, what, case))
+    from bluesky.utils import truncate_json_overflow
+
+    for kind, obj in malformed_stream():
+        try:
+            with warnings.catch_warnings():
+                warnings.simplefilter("ignore")
+                out = truncate_json_overflow(obj)
+            res.count(f"malformed:{kind}:returns-{type(out).__name__}")
+        except Exception as e:  # noqa: BLE001
+            res.count(f"malformed:{kind}:raises-{type(e).__name__}")
     if model:
         replies = C.lean_batch(DRIVER, [json.dumps(c) for c in cases])
         for case, obs, rep in zip(cases, obss, replies):
